@@ -205,7 +205,7 @@ class Alignment(AbstractAlignment):
             return SortedSet([unit.annotation
                               for unitary_alignment in self
                               for _, unit in unitary_alignment.n_tuple
-                              if unit is not None])
+                              if unit is not None and unit.annotation is not None])
 
     @property
     def avg_num_annotations_per_annotator(self):
